@@ -6,6 +6,8 @@ import CifModel.Lemmas.ParseCBPrune
 import CifModel.Lemmas.ParseCBFuel
 import CifModel.Lemmas.ParseCBCut
 import CifModel.Lemmas.ParseCBDup
+import CifModel.Lemmas.ParseCBSub
+import CifModel.Lemmas.ParseCBGrammar
 import CifModel.Spec.Traversal
 /-
   Property C15 — parse-time callbacks mirror the document and steer what is stored.
@@ -317,24 +319,28 @@ theorem C15_value_mirror (v : V) (rest : List Tok) (s : St) (b : Bool) (fuel : N
   value_mirror v rest s b fuel hw hf
 
 /-- **All continue — the callbacks mirror the document and the store is its denotation.**  For every well-formed abstract
-    document `d` (`wfDoc`: well-formed values; loops with ≥ 1 name and ≥ 1 packet, every packet as long as the header;
-    save frames only in data blocks, not nested), with handlers that always continue and a target CIF: the parse of the
+    document `d` (`wfDocN norm`: well-formed values; loops with ≥ 1 name and ≥ 1 packet, every packet as long as the header;
+    save frames only in data blocks, not nested; block codes, frame codes per block and data names per container pairwise
+    distinct after the normalisation `norm` — any `norm`: with duplicates the C makes a DUP_* diagnostic, which `parseCB` does
+    not model, see `C15_dup_all_continue_mirror`), with handlers that always continue and a target CIF: the parse of the
     document's token sequence delivers exactly the callbacks `docEvents true d` — cif / block / frame / loop / packet
     start and end, every item with its name and value, the data-name and keyword callbacks — in document order, returns
     CIF_OK, and the resulting CIF is `denote d`.  (`fuel`: any amount ≥ `szDoc d + 1`; the model's own `fuelFor` in the
     corollary below.) -/
-theorem C15_all_continue_mirror (d : Doc) (hw : wfDoc d = true) (fuel : Nat) (hf : szDoc d + 1 ≤ fuel) :
+theorem C15_all_continue_mirror (norm : Str → Str) (d : Doc) (hwn : wfDocN norm d = true) (fuel : Nat) (hf : szDoc d + 1 ≤ fuel) :
     (parseCif allContP 1 true fuel (St.init (tokensOf d))).2.1.log.reverse = docEvents true d
     ∧ (parseCif allContP 1 true fuel (St.init (tokensOf d))).1 = OK
     ∧ (parseCif allContP 1 true fuel (St.init (tokensOf d))).2.2 = denote d := by
+  have hw : wfDoc d = true := wfDocN_wf hwn
   obtain ⟨h1, h2, h3⟩ := doc_stage1 allContP allContP_noStop true d fuel hw hf
   obtain ⟨k1, k2⟩ := kDoc_allCont d hw
   exact ⟨by rw [h2]; exact k1, h1, by rw [h3]; exact k2⟩
 
 /-- the same for `parseCB` (the model's entry point, fuel `fuelFor`) -/
-theorem C15_all_continue_mirror_parseCB (d : Doc) (hw : wfDoc d = true) :
+theorem C15_all_continue_mirror_parseCB (norm : Str → Str) (d : Doc) (hwn : wfDocN norm d = true) :
     parseCB allContP true (tokensOf d) = (docEvents true d, OK, denote d) := by
-  obtain ⟨h1, h2, h3⟩ := C15_all_continue_mirror d hw (fuelFor (tokensOf d)) (fuelFor_enough d)
+  have hw : wfDoc d = true := wfDocN_wf hwn
+  obtain ⟨h1, h2, h3⟩ := C15_all_continue_mirror norm d hwn (fuelFor (tokensOf d)) (fuelFor_enough d)
   unfold parseCB
   rw [h1, h2, h3]
 
@@ -342,9 +348,10 @@ theorem C15_all_continue_mirror_parseCB (d : Doc) (hw : wfDoc d = true) :
     every program that only continues or skips, in both modes, the parse returns CIF_OK and what it logs and stores is what
     the structural interpreter `kDoc` — the same handler steps applied to the document tree, without tokens or fuel — logs
     and stores. -/
-theorem C15_stored_is_structural (p : Prog) (hp : NoStop p) (storing : Bool) (d : Doc) (hw : wfDoc d = true) :
+theorem C15_stored_is_structural (p : Prog) (hp : NoStop p) (storing : Bool) (norm : Str → Str) (d : Doc) (hwn : wfDocN norm d = true) :
     parseCB p storing (tokensOf d)
       = ((kDoc p storing d (St.init [])).1.log.reverse, OK, (kDoc p storing d (St.init [])).2) := by
+  have hw : wfDoc d = true := wfDocN_wf hwn
   obtain ⟨h1, h2, h3⟩ := doc_stage1 p hp storing d (fuelFor (tokensOf d)) hw (fuelFor_enough d)
   unfold parseCB
   rw [h1, h2, h3]
@@ -358,18 +365,20 @@ theorem C15_stored_is_structural (p : Prog) (hp : NoStop p) (storing : Bool) (d 
     answered SKIP_* is not created; scalar item SKIP_* not stored; loop item SKIP_CURRENT stays; loop item SKIP_SIBLINGS
     drops its packet; packet_end ≠ CONTINUE drops the packet; `denoteP` = `denote` + removal of packet-less loops at every
     container end).  The parse returns CIF_OK. -/
-theorem C15_skip_semantics_rest (p : Prog) (hp : NoStop p) (d : Doc) (hw : wfDoc d = true) :
+theorem C15_skip_semantics_rest (p : Prog) (hp : NoStop p) (norm : Str → Str) (d : Doc) (hwn : wfDocN norm d = true) :
     (parseCB p true (tokensOf d)).2.2 = denoteP (prunedDoc p true d) ∧ (parseCB p true (tokensOf d)).2.1 = OK := by
-  rw [C15_stored_is_structural p hp true d hw]
+  have hw : wfDoc d = true := wfDocN_wf hwn
+  rw [C15_stored_is_structural p hp true norm d hwn]
   exact ⟨kDoc_d p hp d hw, rfl⟩
 
 /-- **Reduction to the document tree, for EVERY program** (END and error answers included): for every well-formed document, in
     both modes, what the parse returns, logs and stores is what the structural interpreter `xDoc` — the handler steps of
     parser.c with the early exits of the productions, applied to the document tree, without tokens or fuel — returns, logs
     and stores. -/
-theorem C15_stored_is_structural_any (p : Prog) (storing : Bool) (d : Doc) (hw : wfDoc d = true) :
+theorem C15_stored_is_structural_any (p : Prog) (storing : Bool) (norm : Str → Str) (d : Doc) (hwn : wfDocN norm d = true) :
     parseCB p storing (tokensOf d)
       = ((xDoc p storing d (St.init [])).2.1.log.reverse, (xDoc p storing d (St.init [])).1, (xDoc p storing d (St.init [])).2.2) := by
+  have hw : wfDoc d = true := wfDocN_wf hwn
   obtain ⟨h1, h2, h3⟩ := doc_x p storing d (fuelFor (tokensOf d)) hw (fuelFor_enough d)
   unfold parseCB
   rw [h1, h2, h3]
@@ -386,18 +395,20 @@ theorem C15_stored_is_structural_any (p : Prog) (storing : Bool) (d : Doc) (hw :
     (`stripL`, just before its end handler); the containers that are open at the stopping point keep theirs.
     The return value is `cutResult`: the stopping answer if it is positive, CIF_OK if not (END); without a stop the answer
     of cif_end if positive, else CIF_OK. -/
-theorem C15_stop_semantics_store (p : Prog) (d : Doc) (hw : wfDoc d = true) :
+theorem C15_stop_semantics_store (p : Prog) (norm : Str → Str) (d : Doc) (hwn : wfDocN norm d = true) :
     (parseCB p true (tokensOf d)).2.2 = denote (cutDoc p true d).kept
     ∧ (parseCB p true (tokensOf d)).2.1 = cutResult p true (cutDoc p true d) := by
-  rw [C15_stored_is_structural_any p true d hw]
+  have hw : wfDoc d = true := wfDocN_wf hwn
+  rw [C15_stored_is_structural_any p true norm d hwn]
   obtain ⟨h1, h2⟩ := xDoc_c p d hw
   exact ⟨h2, h1⟩
 
 /-- the two descriptions agree where both apply: for a program that only continues or skips, the cut document denotes what
     the pruned document denotes after the removal of packet-less loops -/
-theorem C15_cut_extends_pruned (p : Prog) (hp : NoStop p) (d : Doc) (hw : wfDoc d = true) :
+theorem C15_cut_extends_pruned (p : Prog) (hp : NoStop p) (norm : Str → Str) (d : Doc) (hwn : wfDocN norm d = true) :
     denote (cutDoc p true d).kept = denoteP (prunedDoc p true d) := by
-  rw [← (C15_stop_semantics_store p d hw).1, (C15_skip_semantics_rest p hp d hw).1]
+  have hw : wfDoc d = true := wfDocN_wf hwn
+  rw [← (C15_stop_semantics_store p norm d hwn).1, (C15_skip_semantics_rest p hp norm d hwn).1]
 
 /-- **Duplicates under callbacks — all-continue handlers, accepting error callback.**  For every normalisation `norm` and every
     document `d` in which data block codes, save frame codes and scalar data names may repeat (in any spellings that `norm`
@@ -414,10 +425,57 @@ theorem C15_dup_all_continue_mirror (norm : Str → Str) (d : Doc) (hw : okDoc n
   unfold parseCBD
   rw [h1, h2, h3]
 
+/-- **The callbacks delivered are callbacks the document owes, in document order — for EVERY program.**  For every
+    well-formed duplicate-free document, every handler program (skips, END, error codes) and both modes, the callbacks of the
+    parse of `tokensOf d` — handler, data-name and keyword callbacks — form a sublist of `docEvents storing d`: a program that
+    does not always continue only ever makes the parser LEAVE OUT callbacks; it never reorders, repeats or invents one, and
+    the handles passed are the ones the document owes.  (Which callbacks are left out: `C15_skip_opens_region`,
+    `C15_skipped_region_silent`, `C15_stop_is_last`, and exactly, through `xDoc`: `C15_stored_is_structural_any`.) -/
+theorem C15_events_sublist (p : Prog) (storing : Bool) (norm : Str → Str) (d : Doc) (hwn : wfDocN norm d = true) :
+    (parseCB p storing (tokensOf d)).1.Sublist (docEvents storing d) := by
+  rw [C15_stored_is_structural_any p storing norm d hwn]
+  exact xDoc_sub p storing d (wfDocN_wf hwn)
+
+/-- **The denotation is the independent one.**  `Spec.Doc.denote` — the stored CIF of the theorems above — is written with the
+    store operations of Model/ParseCB.lean.  On every document of the Grammar specification (Spec/Grammar.lean: written from the
+    CIF grammar and cif.h by another group, no model involved), read as a C15 document (`ofDoc`: each value replaced by what it
+    denotes), it coincides with that specification's own `denote`. -/
+theorem C15_denote_is_grammar_denote (dia : Dialect) (nk : Str → Str) (g : Spec.Grammar.Doc) :
+    denote (ofDoc dia nk g) = Spec.Grammar.denote dia nk g :=
+  denote_ofDoc dia nk g
+
+/-- … so the all-continue parse of a Grammar document stores its Grammar denotation -/
+theorem C15_all_continue_stores_grammar_denote (dia : Dialect) (nk norm : Str → Str) (g : Spec.Grammar.Doc)
+    (hwn : wfDocN norm (ofDoc dia nk g) = true) :
+    (parseCB allContP true (tokensOf (ofDoc dia nk g))).2.2 = Spec.Grammar.denote dia nk g := by
+  rw [C15_all_continue_mirror_parseCB norm _ hwn]
+  exact denote_ofDoc dia nk g
+
+/-- **Whitespace and comment callbacks, per token**: when next_token scans a new token it reports the layout in front of it in
+    order — every comment, every whitespace run unless something is being skipped (`segEvents`) — and nothing else changes;
+    a token that has been scanned is not reported again.  (Every production reads tokens through next_token only; the
+    document-level theorems are about layout-free token sequences, the order of these callbacks across a whole document is
+    checked by the correspondence oracle.) -/
+theorem C15_ws_reported_in_order (s : St) (t : Tok) (rest : List Tok) (hs : s.toks = t :: rest) :
+    (s.scanned = false →
+      (nextToken s).2.log = (segEvents s.skip t.pre).reverse ++ s.log ∧ (nextToken s).2.scanned = true
+        ∧ (nextToken s).2.skip = s.skip ∧ (nextToken s).2.n = s.n ∧ (nextToken s).2.toks = s.toks ∧ (nextToken s).1 = t.ty)
+    ∧ (s.scanned = true → nextToken s = (t.ty, s)) := by
+  unfold nextToken
+  simp only [hs]
+  constructor
+  · intro h
+    obtain ⟨a, b, c, e, _⟩ := reportPre_spec t.pre s
+    simp only [h, Bool.false_eq_true, if_false]
+    exact ⟨a, trivial, b, c, by rw [e, hs], trivial⟩
+  · intro h
+    simp only [h, if_true]
+
 /-- with all-continue handlers nothing is bypassed: the pruned document stores what the document denotes -/
-theorem C15_unfiltered_is_denote (d : Doc) (hw : wfDoc d = true) : denoteP (prunedDoc allContP true d) = denote d := by
-  have h1 := (C15_skip_semantics_rest allContP allContP_noStop d hw).1
-  rw [C15_all_continue_mirror_parseCB d hw] at h1
+theorem C15_unfiltered_is_denote (norm : Str → Str) (d : Doc) (hwn : wfDocN norm d = true) : denoteP (prunedDoc allContP true d) = denote d := by
+  have hw : wfDoc d = true := wfDocN_wf hwn
+  have h1 := (C15_skip_semantics_rest allContP allContP_noStop norm d hwn).1
+  rw [C15_all_continue_mirror_parseCB norm d hwn] at h1
   exact h1.symm
 
 -- ---- the repaired defect F33, as a statement about the pinned variant ------------------------------------------------
@@ -532,6 +590,13 @@ example : okDoc C15_lower C15_dupDoc = true := by decide +kernel
 -- five error callbacks: _S, save_F, _t in the reopened frame, data_B, _s in the reopened block; one block, one frame stored
 example : ((dupEvents C15_lower C15_dupDoc).filter (fun e => match e with | .keyword (0 :: _) => true | _ => false)).length = 5
     ∧ (dupDenote C15_lower C15_dupDoc).map (fun c => (c.code, c.frames.map (fun f => f.code))) = [((a!"b"), [(a!"f")])] := by
+  decide +kernel
+
+-- the documents of the document-level theorems: well-formed and duplicate-free (after normalisation)
+example : wfDocN C15_lower C15_demo = true ∧ wfDocN C15_lower C15_loopDoc = true := by decide +kernel
+example : wfDoc C15_dupDoc = true ∧ wfDocN C15_lower C15_dupDoc = false := by decide +kernel
+-- every program: the callbacks are a sublist of the document's (instance: two deviations, one of them END)
+example : (parseCB (C15_dev2 4 (-2) 9 END) true (tokensOf C15_loopDoc)).1.length < (docEvents true C15_loopDoc).length := by
   decide +kernel
 
 end CifModel
